@@ -306,7 +306,7 @@ LEVEL_TEXT = ("Proved in Lean, for corpora of any size and filters of any depth 
 LEVEL_NOTE = ("Trusted: Lean kernel; axioms propext/Classical.choice/Quot.sound; harness (generators, wire format, tables of "
               "re.search / float(str) / math.isclose results, workspace listing order) and the independent Python per-job "
               "evaluator used as oracle. The distinct-keys hypothesis is needed in the model only (association lists with a repeated key: "
-              "find_eq_ref_nonflat_false); 
+              "find_eq_ref_nonflat_false); "
               "$where and the unreachable _id shortcut are outside the model. _root_keys descends into $not (F-6b, fixed in "
               "/repo): the model has the same rule, filters mentioning doc only below $not take part in the diff like "
               "any other, and the former behaviour is shown wrong in the model (old_root_keys_lose_documents). One filter naming "
